@@ -65,6 +65,11 @@ def gen(rng, n):
             pv = outer[0] if outer else rng.choice(vols)
             pre = scen.Layout.j(pv, 'data/pre0')
             nodes += [['d', scen.Layout.j(pv, 'data'), 0o755], ['f', pre, 'first argument']]
+        if v != '/' and not td_opt and rng.random() < 0.08:
+            # another file system mounted exactly ON a candidate trash directory: it is then not on the file's volume
+            mp = rng.choice([lay.top2(v)] + ([lay.top1(v)] if lay.top[v][0] == 'sticky' else []))
+            nodes.append(['d', mp, 0o700])
+            lay.mounts.append(mp)
         if lay.top1_can_hold(v) and rng.random() < 0.3:
             t1 = lay.top1(v)
             nodes += [['d', t1, 0o700], ['d', t1 + '/files', 0o700], ['d', t1 + '/info', 0o700]]
@@ -203,7 +208,7 @@ def judge(run, scn, meta, res, section='state'):
         # created directories are private
         for p, v in after.items():
             if p not in before and v[0] == 'd' and (engine.under(p, got) or engine.under(got, p)) and p != '/':
-                if engine.under(p, got) and v[1] != 0o700:
+                if engine.under(p, got) and (v[1] & 0o1777) != 0o700:      # a setgid parent passes its setgid bit on (kernel), the permission bits are the program's
                     run.fail('oracle', 'a trash directory was created with a mode other than 0700', dict(case, path=p, mode=oct(v[1])),
                              key='not-private', section=section)
         # without the fallback the move is one rename
